@@ -1,10 +1,11 @@
-(* C02, Maven part: ordering agrees with ComparableVersion (Maven 3.6 algorithm, Spec/MavenSpec.v).
+(* C02, Maven part: ordering agrees with ComparableVersion (maven-artifact 3.8.x, Spec/MavenSpec.v; on D_mvn the same
+   as the 3.6 algorithm maven.go names).
    Statements only.  The model follows the tree through two booleans read by gotables from
    maven.go; z below is the variant of the zero test of the trimming loop (false:
    isEmptyMavenElem tests the spelling "0", as found; true: every all-zero numeral is empty,
    the repair of F-C02-11); mvn_parse = mvn_parse_with mvn_fix_zero_spelling is the tree's. *)
 From DepsDev Require Import Lib.Base Semver.Version Semver.Compare Semver.Maven Semver.MavenParse Semver.MavenDomain
-  Semver.MavenItems Semver.Maven_proofs Semver.MavenSpec_proofs Spec.MavenSpec Gen.MavenVariants.
+  Semver.MavenItems Semver.Maven_proofs Semver.MavenSpec_proofs Semver.MavenDotted_proofs Spec.MavenSpec Gen.MavenVariants.
 Local Open Scope Z_scope.
 
 (* The full statement on the property's domain (D_mvn minus a release-equivalent qualifier
@@ -38,6 +39,51 @@ Theorem C02_maven_zero_tree :
   mspec_compare s_1_00 s_1 = 0.
 Proof. exact maven_zero_tree. Qed.
 Print Assumptions C02_maven_zero_tree.
+
+(* F-C02-24: a qualifier attached by '.' (JBoss/Spring style 1.0.0.RC1, 1.SP, 2.0.jre2) is inside
+   the grammar of the property but outside D_mvn.  ComparableVersion (3.8.x) opens a sub-list for
+   such a qualifier exactly as for '-', so zeros before it are trimmed and 1.SP = 1.0-SP; the
+   library keeps the '.' on the element, does not trim before it and orders '.'-attached and
+   '-'-attached qualifiers apart.  The model of the library's comparison (both variants of the
+   zero test) differs from the specification on: 1.SP vs 1.0-SP (-1 / 0), 2.0.jre2 vs 2.0.0-jre2
+   (1 / 0), 10.0.0.0.Beta7 vs 10-CR (1 / -1). *)
+Theorem C02_maven_dotted_refuted : forall z,
+  (mvn_cmp_strings z s_1_SP s_1_0_SP = Some (-1) /\ mspec_compare s_1_SP s_1_0_SP = 0) /\
+  (mvn_cmp_strings z s_2_0_jre2 s_2_0_0_jre2 = Some 1 /\ mspec_compare s_2_0_jre2 s_2_0_0_jre2 = 0) /\
+  (mvn_cmp_strings z s_10_Beta7 s_10_CR = Some 1 /\ mspec_compare s_10_Beta7 s_10_CR = -1).
+Proof. exact maven_dotted_witness. Qed.
+Print Assumptions C02_maven_dotted_refuted.
+
+(* What holds for '.'-attached qualifiers: among element lists that are numbers only or carry
+   their first qualifier after a '.', the last number before it not spelled 0 (boolean d_dot_b:
+   1.1.RC1, 2.5.SP, 3.2.jre8, 1.2.3; not 1.0.RC1, where ComparableVersion trims the zero and the
+   library does not -- that is F-C02-24), the library orders exactly as it orders the same lists
+   with that qualifier attached by '-' (dashify), hence, when those are in the domain of
+   C02_maven_partial, as ComparableVersion orders their item trees.  Pairs that mix a '.'-attached
+   with a '-'-attached qualifier are outside: the library orders 1.1.RC1 below 1.1-RC1,
+   ComparableVersion reads them alike (F-C02-24 again).  The tie between strings and trees
+   (comparable_version s = items_of (dashify (parse s))) is checked by the harness on generated
+   dotted strings, kind svm_maven_dot_tie, for strings whose dotted qualifier is last or directly
+   followed by a digit (1.1.RC1, 1.1.RC1-SNAPSHOT); when a '-' or '.' follows it (1.SP-SNAPSHOT,
+   1.rc-1) ComparableVersion 3.8.x does not open a sub-list for the qualifier, which the element
+   list cannot tell from the former spelling: those strings are decided by the oracle only. *)
+Theorem C02_maven_dotted_partial : forall l1 l2, d_dot_b l1 = true -> d_dot_b l2 = true ->
+  c02_wide_b (dashify l1) = true -> c02_wide_b (dashify l2) = true ->
+  maven_compare l1 l2 = Ok (item_cmp (items_of (dashify l1)) (items_of (dashify l2))).
+Proof. exact dotted_spec_agree_b. Qed.
+Print Assumptions C02_maven_dotted_partial.
+
+Example C02_maven_dotted_nonvacuous :
+  match mvn_parse_with false s_1_1_RC1, mvn_parse_with false s_1_1_SP with
+  | Some (Ok a), Some (Ok b) =>
+      d_dot_b (mvn_elems a) = true /\ d_dot_b (mvn_elems b) = true /\
+      c02_wide_b (dashify (mvn_elems a)) = true /\ c02_wide_b (dashify (mvn_elems b)) = true /\
+      items_of (dashify (mvn_elems a)) = comparable_version s_1_1_RC1 /\
+      items_of (dashify (mvn_elems b)) = comparable_version s_1_1_SP /\
+      compare a b = Ok (-1) /\ mspec_compare s_1_1_RC1 s_1_1_SP = -1
+  | _, _ => False
+  end.
+Proof. exact dotted_nonvacuous. Qed.
 
 (* What holds, for ALL element lists of the domain c02_wide_b (the proved domain d_mvn_wide of
    C01 -- which contains D_mvn -- with numerals not negative, the last prefix numeral not 0 by
